@@ -25,6 +25,10 @@ def check(tier, seed):
     for f in ('F1', 'F2', 'F3'):
         for line in open(f"{core.VERIF}/corpus/{f}.ops").read().strip().split('\n'):
             add(line, f'corpus {f} (pinned-tree panic witness)', True)
+    # F4 (repaired by 322a92d): an accepted key that makes more than 65535 / l attempts fail - the signer must return an error, in both profiles
+    # (the model is not asked: 16 384 attempts take it half an hour)
+    for line in open(f"{core.VERIF}/corpus/F4.ops").read().strip().split('\n'):
+        cases.append({'line': line, 'tag': 'corpus F4 (pinned-tree panic witness)', 'want': 'err:other calls=tryfill32', 'model': False})
     for s in fam.SETS:
         p = R.PARAMS[s]
         plen, slen, glen = R.pk_len(p), R.sk_len(p), R.sig_len(p)
@@ -146,6 +150,19 @@ def check(tier, seed):
         add(f"sign {s} pure gen:{xi.hex()} {hx(msg)} {'00' * 300} errbefore", 'sign: long ctx', True)
         add(f"sign {s} sha512 gen:{xi.hex()} {hx(msg)} - errafter:{'aa' * 7}", 'hash_sign: failing RNG', True)
         add(f"keygen_rng {s} -", 'keygen: empty RNG script', True)
+    # --- long rejection runs: an accepted private key whose t0 sits near the ends of its range everywhere (never produced by key generation) makes almost
+    # every attempt fail the hint-weight / ||c t0|| tests, so signing needs hundreds of attempts - still far inside the 16-bit counter; whatever counts
+    # attempts, hints or kappa in a narrower type overflows here
+    for s in fam.SETS:
+        p = R.PARAMS[s]
+        pk0, sk0 = fam.keypair(s, bytes([0x42]) * 32)
+        rho0, K0, tr0, s10, s20, _t0 = R.sk_decode(p, sk0)
+        for amp in (3900, 4000):
+            sg = random.Random(amp + int(s))        # fixed pseudo-random signs: c * t0 is then large in most coefficients
+            t0x = [[amp if sg.random() < 0.5 else -amp for j in range(256)] for i in range(p['k'])]
+            skx = R.sk_encode(p, rho0, K0, tr0, s10, s20, t0x)
+            for t in range(3 if thorough else 2):
+                add(f"sign {s} pure bytes:{skx.hex()} {hx(bytes([t, amp % 256]) + b'long rejection run')} - ok:{'00' * 32}", 'sign: key with |t0| near the range end everywhere (hundreds of attempts)', False)
     core.run_and_judge(rep, cases, model_every=0, rust=('checked', 'fast'))
     return core.finish(rep, b, 'proof', {
         'rule': 'uniformly random pk / sk / sig / msg / ctx (any length); accepted-but-dishonest private keys (all fields in range, K / tr / t0 arbitrary or extremal) through serialise, derive and sign; '
